@@ -9,7 +9,8 @@ Fixed == { Ordinal(2019, 1, 1), Ordinal(2019, 12, 31), Ordinal(2020, 2, 28), Ord
 LeapRefs == { Ordinal(1999, 7, 1), Ordinal(2000, 2, 29), Ordinal(2001, 3, 1), Ordinal(2003, 12, 31), Ordinal(1952, 2, 29), Ordinal(2088, 3, 1) }
 QRefsFor(md) == Near(md, {2019, 2020}) \cup Fixed \cup (IF md = <<2, 29>> THEN LeapRefs ELSE {})
 TRefsFor(md) == Near(md, {1950, 2019, 2020, 2087, 2088}) \cup Fixed \cup (IF md = <<2, 29>> THEN LeapRefs ELSE {}) \cup { Ordinal(2089, 12, 31), Ordinal(1952, 2, 29), Ordinal(2000, 2, 29), Ordinal(2001, 3, 1), Ordinal(1999, 7, 1) }
-WRefs == { Ordinal(2019, 3, 4) + k : k \in 0..13 }
+WRefs == { Ordinal(2019, 3, 4) + k : k \in 0..13 } \cup { Ordinal(2021, 12, 27) + k : k \in 0..9 }   \* two weeks, and a turn of the year
+QOtherMD == {<<3, 5>>, <<12, 31>>, <<1, 1>>, <<2, 29>>, <<5, 31>>}
 OTimes == {<<0, 0, 0>>, <<15, 0, 0>>}
 AllCases == TLCEval(Cases)
 VARIABLES c, pc
